@@ -43,6 +43,13 @@ class CopyPropagate:
             ):
                 # direct assignment: x = y
                 # substitute all occurences of this definition of `x` with `y`
+                #
+                # only sound while `y` still holds the value it had at the
+                # copy: `t = x; x = x + 1; u = t` must not become `u = x`.
+                # Conservatively require that `y` is never redefined.
+                src_defs = def_use.name_to_defs.get(d.site.expr.name, set())
+                if len(src_defs) != 1:
+                    continue
                 if len(def_use.uses[d]) > 0:
                     # optimization: only propagate if there is at least one use
                     prop[d] = d.site.expr
